@@ -395,3 +395,21 @@ func init() {
 	mutant("client-handshake-framesize-ignored", "client-request-shape", "conn.go", "			c.maxFrameSize = c.serverS.MaxFrameSize()\n", "")
 	mutant("client-window-constants-differ", "client-request-shape", "conn.go", "	nc.current.SetMaxWindowSize(1 << 20)", "	nc.current.SetMaxWindowSize(1 << 21)")
 }
+
+func init() {
+	mutant("window-update-zero-increment", "emitter-payloads", "conn.go", "	wu.SetIncrement(size)\n", "")
+	mutant("server-window-update-zero-increment", "emitter-payloads", "serverConn.go", "	wu.SetIncrement(inc)\n", "")
+	mutant("reset-code-dropped", "emitter-payloads", "serverConn.go", "	r.SetCode(code)\n", "")
+	mutant("ping-answer-without-ack", "emitter-payloads", "serverConn.go", "	ack.SetAck(true)\n	ack.SetData(ping.Data())\n\n	fr := AcquireFrameHeader()\n	fr.SetBody(ack)\n\n	sc.write(fr)", "	ack.SetData(ping.Data())\n\n	fr := AcquireFrameHeader()\n	fr.SetBody(ack)\n\n	sc.write(fr)")
+	mutant("ping-answer-without-data", "emitter-payloads", "conn.go", "	ack.SetData(ping.Data())\n", "")
+	mutant("goaway-code-dropped", "emitter-payloads", "serverConn.go", "	ga.SetCode(code)\n", "")
+	mutant("client-settings-ack-not-queued", "emitter-payloads", "conn.go", "	fr.SetBody(stRes)\n\n	c.writeOut(fr)\n}", "	fr.SetBody(stRes)\n}")
+	mutant("client-data-not-appended", "client-response-shape", "conn.go", "			res.AppendBody(data.Data())\n", "")
+	mutant("client-one-octet-data-dropped", "client-response-shape", "conn.go", "		if data.Len() != 0 {", "		if data.Len() > 1 {")
+	mutant("client-status-range-conjunction", "client-response-shape", "conn.go", "			if err != nil || n < 100 || n > 999 {", "			if err != nil || n < 100 && n > 999 {")
+	mutant("client-status-not-stored", "client-response-shape", "conn.go", "			res.SetStatusCode(n)\n", "")
+	mutant("client-regular-not-marked", "client-response-shape", "conn.go", "		regularSeen = true\n", "		regularSeen = false\n")
+	mutant("client-fields-dropped", "client-response-shape", "conn.go", "			res.Header.AddBytesKV(hf.KeyBytes(), hf.ValueBytes())\n", "")
+	mutant("client-initial-window-not-applied", "client-response-shape", "conn.go", "		c.applyInitialWindow(int32(st.MaxWindowSize()))\n", "")
+	mutant("client-settings-not-kept", "client-response-shape", "conn.go", "func (c *Conn) handleSettings(st *Settings) {\n	st.CopyTo(&c.serverS)\n", "func (c *Conn) handleSettings(st *Settings) {\n")
+}
